@@ -76,6 +76,7 @@ func (c08Discard) Write(p []byte) (int, error) { return len(p), nil }
 var c08Base = time.Date(2026, 1, 1, 0, 0, 0, 0, time.UTC)
 
 const c08R3 = corev1.ResourceName("verif.io/r3")
+const c08R4 = corev1.ResourceName("a.verif.io/r4")
 
 var c08AggTypes = []extension.AggregationType{extension.AVG, extension.P50, extension.P90, extension.P95, extension.P99}
 
@@ -137,8 +138,13 @@ func c08GenArgs(r *kit.Rand) (*config.LoadAwareSchedulingArgs, bool) {
 			a.SupportedResources = []corev1.ResourceName{c08R3}
 		}
 	}
-	a.EstimatedSecondsAfterPodScheduled = c08Int64Ptr(r, 30, 10, []int64{30, 60, 300, 3600})
-	a.EstimatedSecondsAfterInitialized = c08Int64Ptr(r, 40, 10, []int64{30, 60, 600})
+	if r.Pct(12) {
+		// a resource that is only collected (never requested, never thresholded) and whose name sorts
+		// BEFORE cpu: the vector index of cpu/memory is then not 0/1
+		a.SupportedResources = append(a.SupportedResources, c08R4)
+	}
+	a.EstimatedSecondsAfterPodScheduled = c08Int64Ptr(r, 30, 10, []int64{30, 60, 60, 300, 300, 3600, 3600, 1, 86400})
+	a.EstimatedSecondsAfterInitialized = c08Int64Ptr(r, 40, 10, []int64{30, 60, 60, 600, 600, 1, 86400})
 	a.AllowCustomizeEstimation = r.Pct(40)
 	a.ProdUsageIncludeSys = r.Bool()
 	return a, useR3
@@ -391,10 +397,18 @@ func (p *c08Pod) assigned() (string, *corev1.Pod) {
 	return "", nil
 }
 
-var c08CPUPool = []int64{1, 100, 250, 500, 999, 1000, 1001, 2000, 4000, 7777}
-var c08MemPool = []int64{1, 1 << 20, 200 << 20, 1 << 30, 1<<30 + 1, 3 << 30, 1000000000, 1 << 33}
-var c08R3Pool = []int64{1, 2, 8, 100}
-var c08Priorities = []*int32{nil, nil, nil, ptr.To[int32](9500), ptr.To[int32](9000), ptr.To[int32](9999), ptr.To[int32](7500), ptr.To[int32](5500), ptr.To[int32](3500), ptr.To[int32](0), ptr.To[int32](8500)}
+// value pools: the everyday values are repeated, the rare ones (0 = explicit zero quantity, hundreds of
+// cores, a TiB) appear once
+var c08CPUPool = []int64{1, 100, 100, 250, 250, 500, 500, 999, 1000, 1000, 1001, 2000, 2000, 4000, 4000, 7777, 0, 64000, 1000000}
+var c08MemPool = []int64{1, 1 << 20, 1 << 20, 200 << 20, 200 << 20, 1 << 30, 1 << 30, 1<<30 + 1, 3 << 30, 3 << 30, 1000000000, 1 << 33, 1 << 33, 0, 1 << 40}
+var c08R3Pool = []int64{1, 2, 8, 100, 0, 1 << 20}
+
+func c08P32(v int32) *int32 { return ptr.To(v) }
+
+// priorities: nil, the class defaults (frequent) and every class boundary, both sides, plus negative and system-critical values
+var c08Priorities = []*int32{nil, nil, nil, nil, c08P32(9500), c08P32(9500), c08P32(7500), c08P32(7500), c08P32(5500), c08P32(5500), c08P32(3500), c08P32(0), c08P32(0),
+	c08P32(9000), c08P32(9999), c08P32(8999), c08P32(10000), c08P32(7000), c08P32(7999), c08P32(6999), c08P32(8000), c08P32(8500), c08P32(5000), c08P32(5999), c08P32(4999), c08P32(6000),
+	c08P32(3000), c08P32(3999), c08P32(2999), c08P32(4000), c08P32(-1), c08P32(2000000000), c08P32(2000001000)}
 
 func c08GenResources(r *kit.Rand, flavor int, useR3 bool) corev1.ResourceRequirements {
 	req, lim := corev1.ResourceList{}, corev1.ResourceList{}
@@ -408,6 +422,10 @@ func c08GenResources(r *kit.Rand, flavor int, useR3 bool) corev1.ResourceRequire
 	put := func(name corev1.ResourceName, pool []int64, milli bool) {
 		mk := func(v int64) resource.Quantity {
 			if milli {
+				if v > 0 && v < 1000 && r.Pct(6) {
+					// finer than a milli-core (legal quantity, e.g. "999500u"): MilliValue rounds up
+					return *resource.NewScaledQuantity(v*1000-500, resource.Micro)
+				}
 				return *resource.NewMilliQuantity(v, resource.DecimalSI)
 			}
 			return *resource.NewQuantity(v, resource.BinarySI)
@@ -437,12 +455,17 @@ func c08GenResources(r *kit.Rand, flavor int, useR3 bool) corev1.ResourceRequire
 }
 
 func c08GenContainers(r *kit.Rand, flavor int, useR3 bool) (cs, inits []corev1.Container) {
-	n := kit.Pick(r, []int{1, 1, 1, 2})
+	n := kit.Pick(r, []int{1, 1, 1, 1, 1, 2, 2, 3, 4, 6})
 	for i := 0; i < n; i++ {
 		cs = append(cs, corev1.Container{Name: fmt.Sprintf("c%d", i), Resources: c08GenResources(r, flavor, useR3)})
 	}
-	if r.Pct(20) {
-		inits = append(inits, corev1.Container{Name: "init", Resources: c08GenResources(r, flavor, useR3)})
+	for i, ni := 0, kit.Pick(r, []int{0, 0, 0, 0, 0, 0, 1, 1, 2, 3}); i < ni; i++ {
+		ic := corev1.Container{Name: fmt.Sprintf("init%d", i), Resources: c08GenResources(r, flavor, useR3)}
+		if r.Pct(25) {
+			// restartable init container (sidecar): counts like a regular container
+			ic.RestartPolicy = ptr.To(corev1.ContainerRestartPolicyAlways)
+		}
+		inits = append(inits, ic)
 	}
 	return
 }
@@ -451,7 +474,7 @@ func c08GenContainers(r *kit.Rand, flavor int, useR3 bool) (cs, inits []corev1.C
 // pending) object. Labels and annotations are fixed for the whole incarnation.
 func c08NewIncarnation(r *kit.Rand, p *c08Pod, useR3 bool) *corev1.Pod {
 	p.inc++
-	p.uid = types.UID(fmt.Sprintf("%s-%d", p.name, p.inc))
+	p.uid = types.UID(fmt.Sprintf("%s.%s-%d", p.ns[:1], p.name, p.inc)) // slots may share a name across namespaces
 	p.ver = 0
 	p.inf, p.lastInf, p.reservedOn, p.resObj = nil, nil, "", nil
 	flavor := r.Weighted(60, 15, 10, 15)
@@ -460,6 +483,11 @@ func c08NewIncarnation(r *kit.Rand, p *c08Pod, useR3 bool) *corev1.Pod {
 		Status:     corev1.PodStatus{Phase: corev1.PodPending},
 	}
 	pod.Spec.Containers, pod.Spec.InitContainers = c08GenContainers(r, flavor, useR3)
+	if r.Pct(8) {
+		// RuntimeClass overhead is part of what the pod requests
+		pod.Spec.Overhead = corev1.ResourceList{corev1.ResourceCPU: *resource.NewMilliQuantity(kit.Pick(r, []int64{10, 100, 250}), resource.DecimalSI),
+			corev1.ResourceMemory: *resource.NewQuantity(kit.Pick(r, []int64{1 << 20, 64 << 20}), resource.BinarySI)}
+	}
 	switch flavor {
 	case 1:
 		pod.Spec.Priority = kit.Pick(r, []*int32{ptr.To[int32](5500), ptr.To[int32](5500), ptr.To[int32](5000), nil})
@@ -469,23 +497,24 @@ func c08NewIncarnation(r *kit.Rand, p *c08Pod, useR3 bool) *corev1.Pod {
 		pod.Spec.Priority = kit.Pick(r, c08Priorities)
 	}
 	if r.Pct(10) {
-		pod.Labels = map[string]string{extension.LabelPodPriorityClass: string(kit.Pick(r, []extension.PriorityClass{extension.PriorityProd, extension.PriorityMid, extension.PriorityBatch, "bogus"}))}
+		pod.Labels = map[string]string{extension.LabelPodPriorityClass: string(kit.Pick(r, []extension.PriorityClass{extension.PriorityProd, extension.PriorityProd, extension.PriorityMid, extension.PriorityBatch, extension.PriorityFree, "bogus", ""}))}
 	}
 	if r.Pct(10) {
 		if pod.Labels == nil {
 			pod.Labels = map[string]string{}
 		}
-		pod.Labels[extension.LabelPodQoS] = string(kit.Pick(r, []extension.QoSClass{extension.QoSBE, extension.QoSLS, extension.QoSLSR}))
+		pod.Labels[extension.LabelPodQoS] = string(kit.Pick(r, []extension.QoSClass{extension.QoSBE, extension.QoSBE, extension.QoSLS, extension.QoSLS, extension.QoSLSR, extension.QoSLSE, extension.QoSSystem, "bogus"}))
 	}
 	ann := map[string]string{}
 	if r.Pct(15) {
-		ann[extension.AnnotationCustomEstimatedScalingFactors] = kit.Pick(r, []string{`{"cpu":60}`, `{"cpu":100,"memory":100}`, `{"memory":1}`, `not-json`})
+		ann[extension.AnnotationCustomEstimatedScalingFactors] = kit.Pick(r, []string{`{"cpu":60}`, `{"cpu":60}`, `{"cpu":100,"memory":100}`, `{"cpu":100,"memory":100}`, `{"memory":1}`, `not-json`,
+			`{}`, `{"cpu":0}`, `{"cpu":150,"memory":200}`, `{"verif.io/r3":50}`, `{"cpu":60,"unknown.io/x":10}`})
 	}
 	if r.Pct(12) {
-		ann[extension.AnnotationCustomEstimatedSecondsAfterPodScheduled] = kit.Pick(r, []string{"0", "120", "30", "-1", "x"})
+		ann[extension.AnnotationCustomEstimatedSecondsAfterPodScheduled] = kit.Pick(r, []string{"0", "120", "120", "30", "30", "-1", "x", "1", "+45", "100000000"})
 	}
 	if r.Pct(12) {
-		ann[extension.AnnotationCustomEstimatedSecondsAfterInitialized] = kit.Pick(r, []string{"0", "90", "600", "-1"})
+		ann[extension.AnnotationCustomEstimatedSecondsAfterInitialized] = kit.Pick(r, []string{"0", "90", "90", "600", "600", "-1", "1", "1e3", "100000000"})
 	}
 	if len(ann) > 0 {
 		pod.Annotations = ann
@@ -533,6 +562,12 @@ func c08PodStr(pod *corev1.Pod) string {
 	own := ""
 	for _, o := range pod.OwnerReferences {
 		own += " owner=" + o.Kind
+	}
+	if len(pod.Spec.Overhead) > 0 {
+		own += " overhead=" + c08ListStr(pod.Spec.Overhead)
+	}
+	if pod.DeletionTimestamp != nil {
+		own += " deletionTimestamp=" + c08T(pod.DeletionTimestamp.Time)
 	}
 	return fmt.Sprintf("%s/%s uid=%s rv=%s node=%q prio=%s phase=%s labels=%v ann=%v conds=%v %s%s", pod.Namespace, pod.Name, pod.UID, pod.ResourceVersion,
 		pod.Spec.NodeName, prio, pod.Status.Phase, pod.Labels, pod.Annotations, conds, strings.Join(cs, " "), own)
@@ -588,6 +623,16 @@ func c08NewModel(env *c08Env, nnodes, npods int) *c08Model {
 	return m
 }
 
+// shareNames makes every kube-system slot carry the NAME of the default-namespace slot before it:
+// two live pods then differ only in their namespace (the report is keyed by namespace AND name).
+func (m *c08Model) shareNames() {
+	for i, p := range m.pods {
+		if i > 0 && p.ns == "kube-system" && m.pods[i-1].ns == "default" {
+			p.name = m.pods[i-1].name
+		}
+	}
+}
+
 func c08Namespace(i int) string {
 	if i%3 == 2 {
 		return "kube-system"
@@ -604,7 +649,7 @@ func (m *c08Model) nextVersion(p *c08Pod, obj *corev1.Pod) *corev1.Pod {
 func (m *c08Model) evInformerAdd(c *kit.Case, tag string, p *c08Pod, obj *corev1.Pod) {
 	m.nextVersion(p, obj)
 	c.Op("%sOnAdd %s", tag, c08PodStr(obj))
-	m.env.cache.OnAdd(obj, false)
+	m.env.cache.OnAdd(obj, p.inc%2 == 0) // isInInitialList must not matter
 	p.inf, p.lastInf = obj, obj
 }
 
@@ -634,6 +679,12 @@ func (m *c08Model) evUpdate(c *kit.Case, tag, what string, p *c08Pod, newObj *co
 		// the informer shows the binding: the Reserve is consumed, the informer version governs
 		p.reservedOn, p.resObj = "", nil
 	}
+}
+
+// evResync: the informer's periodic resync delivers an update whose old and new object are the SAME object.
+func (m *c08Model) evResync(c *kit.Case, tag string, p *c08Pod) {
+	c.Op("%sOnUpdate[resync: old==new] uid=%s node=%q", tag, p.uid, p.inf.Spec.NodeName)
+	m.env.cache.OnUpdate(p.inf, p.inf)
 }
 
 func (m *c08Model) evDelete(c *kit.Case, tag string, p *c08Pod, obj *corev1.Pod, tombstone bool) {
@@ -708,7 +759,9 @@ func (m *c08Model) mutate(r *kit.Rand, p *c08Pod, aspects []string, now time.Tim
 		case "priority":
 			n.Spec.Priority = kit.Pick(r, c08Priorities)
 		case "cond-init":
-			if r.Pct(80) {
+			if r.Pct(8) {
+				c08SetCond(n, corev1.PodInitialized, corev1.ConditionUnknown, sec)
+			} else if r.Pct(80) {
 				c08SetCond(n, corev1.PodInitialized, corev1.ConditionTrue, sec.Add(-time.Duration(kit.Pick(r, []int{0, 1, 30, 60, 600, 3600}))*time.Second))
 			} else {
 				c08SetCond(n, corev1.PodInitialized, corev1.ConditionFalse, sec)
@@ -724,6 +777,15 @@ func (m *c08Model) mutate(r *kit.Rand, p *c08Pod, aspects []string, now time.Tim
 		case "phase-running":
 			if n.Spec.NodeName != "" && !c08Terminated(n) {
 				n.Status.Phase = corev1.PodRunning
+				if r.Pct(10) {
+					n.Status.Phase = corev1.PodUnknown // node unreachable: the pod is still placed there
+				}
+			}
+		case "terminating":
+			// graceful deletion has started (metadata only): the pod still runs on its node until it is finished or gone
+			if n.DeletionTimestamp == nil {
+				n.DeletionTimestamp = &metav1.Time{Time: sec}
+				n.DeletionGracePeriodSeconds = ptr.To[int64](30)
 			}
 		case "terminate":
 			n.Status.Phase = kit.Pick(r, []corev1.PodPhase{corev1.PodSucceeded, corev1.PodFailed})
@@ -766,9 +828,9 @@ func (m *c08Model) mutate(r *kit.Rand, p *c08Pod, aspects []string, now time.Tim
 		}
 		switch r.Intn(3) {
 		case 0:
-			lb[extension.LabelPodPriorityClass] = string(kit.Pick(r, []extension.PriorityClass{extension.PriorityProd, extension.PriorityMid, extension.PriorityBatch, "bogus"}))
+			lb[extension.LabelPodPriorityClass] = string(kit.Pick(r, []extension.PriorityClass{extension.PriorityProd, extension.PriorityProd, extension.PriorityMid, extension.PriorityBatch, extension.PriorityFree, "bogus", ""}))
 		case 1:
-			lb[extension.LabelPodQoS] = string(kit.Pick(r, []extension.QoSClass{extension.QoSBE, extension.QoSLS, extension.QoSLSR}))
+			lb[extension.LabelPodQoS] = string(kit.Pick(r, []extension.QoSClass{extension.QoSBE, extension.QoSLS, extension.QoSLSR, extension.QoSLSE, extension.QoSSystem, "bogus"}))
 		case 2:
 			delete(lb, extension.LabelPodPriorityClass)
 			delete(lb, extension.LabelPodQoS)
@@ -796,6 +858,9 @@ func (m *c08Model) mutate(r *kit.Rand, p *c08Pod, aspects []string, now time.Tim
 	}
 	if !reflect.DeepEqual(n.Labels, old.Labels) {
 		changed = append(changed, "labels")
+	}
+	if !n.DeletionTimestamp.Equal(old.DeletionTimestamp) {
+		changed = append(changed, "deletion-timestamp")
 	}
 	return n, changed
 }
@@ -882,6 +947,9 @@ func c08GenUsageList(r *kit.Rand, env *c08Env, cpuMax, memMax int64) corev1.Reso
 		}
 		if r.Pct(8) {
 			v = 0
+		} else if r.Pct(2) {
+			// a figure far beyond any machine of today (still far from 64-bit overflow when summed)
+			v = kit.Pick(r, []int64{1 << 44, 10000000, 1<<40 + 1})
 		}
 		list[name] = c08Q(name, v)
 	}
@@ -896,7 +964,7 @@ type c08MetricOpt struct {
 
 // c08GenInterval picks a report interval: 0 = leave the collect policy unset (default 60s).
 func c08GenInterval(r *kit.Rand) int64 {
-	return kit.Pick(r, []int64{0, 0, 20, 60, 60, 180, 600})
+	return kit.Pick(r, []int64{0, 0, 0, 20, 20, 60, 60, 60, 180, 180, 600, 600, 1, 5, 3600})
 }
 
 // c08GenMetric generates a NodeMetric object for node.
@@ -918,7 +986,7 @@ func c08GenMetric(r *kit.Rand, env *c08Env, node string, ver int, now time.Time,
 		return nm // empty status: object just created, koordlet has not reported yet
 	}
 	if updateTime.IsZero() {
-		cands := []time.Time{now.Truncate(time.Second), now, now.Add(-time.Duration(r.Int63n(int64(2*interval) + 1))), now.Add(5 * time.Second), now.Add(-3 * time.Hour)}
+		cands := []time.Time{now.Truncate(time.Second), now, now.Add(-time.Duration(r.Int63n(int64(2*interval) + 1))), now.Add(5 * time.Second), now.Add(-3 * time.Hour), now.Add(-3 * time.Hour), now.Add(5 * time.Second), now.Add(-30 * 24 * time.Hour), now.Add(time.Hour)}
 		for _, h := range hints {
 			if !h.ts.IsZero() {
 				// boundary "assigned within the report interval": updateTime-interval vs timestamp
